@@ -311,7 +311,7 @@ func (g *Generator) generateOneofUnmarshalVariants(
 	gf.P(`if discRaw, ok := raw["`, info.Discriminator, `"]; ok {`)
 	gf.P("var disc string")
 	gf.P("if err := json.Unmarshal(discRaw, &disc); err != nil {")
-	gf.P(`return fmt.Errorf("invalid discriminator %q: %%w", "`, info.Discriminator, `", err)`)
+	gf.P(`return fmt.Errorf("invalid discriminator %q: %w", "`, info.Discriminator, `", err)`)
 	gf.P("}")
 	gf.P()
 
@@ -372,7 +372,7 @@ func (g *Generator) generateFlattenedUnmarshal(
 	gf.P("variantErr = protojson.Unmarshal(variantData, variant)")
 	gf.P("}")
 	gf.P("if variantErr != nil {")
-	gf.P(`return fmt.Errorf("failed to unmarshal variant %s: %%w", "`, fieldGoName, `", variantErr)`)
+	gf.P(`return fmt.Errorf("failed to unmarshal variant %s: %w", "`, fieldGoName, `", variantErr)`)
 	gf.P("}")
 	gf.P("x.", info.Oneof.GoName, " = &", wrapperType, "{", fieldGoName, ": variant}")
 
@@ -408,7 +408,7 @@ func (g *Generator) generateNestedUnmarshal(
 	gf.P("variantErr = protojson.Unmarshal(variantRaw, variant)")
 	gf.P("}")
 	gf.P("if variantErr != nil {")
-	gf.P(`return fmt.Errorf("failed to unmarshal variant %s: %%w", "`, fieldGoName, `", variantErr)`)
+	gf.P(`return fmt.Errorf("failed to unmarshal variant %s: %w", "`, fieldGoName, `", variantErr)`)
 	gf.P("}")
 	gf.P("x.", info.Oneof.GoName, " = &", wrapperType, "{", fieldGoName, ": variant}")
 	gf.P("}")
